@@ -5,6 +5,7 @@
 #include "../drv/enum.h"
 #include "../drv/vp.h"
 #include <algorithm>
+#include <climits>
 #include <map>
 #include <set>
 #include <vector>
@@ -55,26 +56,42 @@ static inline int node_factor_raw(N const *n) { return (n->factor >= -1 && n->fa
 #endif
 static inline Item const *item(N const *n) { return (Item const *)((char const *)n - offsetof(Item, node)); }
 
+// The comparison contract of the containers is the sign of the result only. The style is fixed per history:
+// 0: -1/0/+1, 1: the key difference, 2: the difference times 1000, 3: INT_MIN / 0 / INT_MAX, 4..7: asymmetric mixes.
+static int g_cmp_style = 0;
+static inline int cmp_shape(int ka, int kb)
+{
+    int s = (ka > kb) - (ka < kb);
+    switch (g_cmp_style & 7)
+    {
+    default: case 0: return s;
+    case 1: return ka - kb;
+    case 2: return (ka - kb) * 1000;
+    case 3: return s > 0 ? INT_MAX : s < 0 ? INT_MIN : 0;
+    case 4: return s > 0 ? 2 : s;
+    case 5: return s < 0 ? -2 : s;
+    case 6: return s > 0 ? ka - kb + 1 : s;
+    case 7: return s < 0 ? INT_MIN : ka - kb;
+    }
+}
 static int cmp_nodes(void const *a, void const *b)
 {
-    int ka = item((N const *)a)->key, kb = item((N const *)b)->key;
-    return (ka > kb) - (ka < kb);
+    return cmp_shape(item((N const *)a)->key, item((N const *)b)->key);
 }
 static int cmp_key(void const *ctx, void const *b)
 {
-    int ka = *(int const *)ctx, kb = item((N const *)b)->key;
-    return (ka > kb) - (ka < kb);
+    return cmp_shape(*(int const *)ctx, item((N const *)b)->key);
 }
 
 enum
 {
     L_RM_LEAF, L_RM_ONE, L_RM_TWO_SUCC_RIGHT, L_RM_TWO_SUCC_DEEP, L_DUP, L_ROOT_CHANGED, L_SIZE16, L_SIZE64,
-    L_INS_AFTER_RM, L_RM_BLACK, L_BATTERY, L_TEAR_INTERRUPT, L_TEAR_RESTART, L_EMPTIED, L_LEFT_ONLY, L_RIGHT_ONLY, L_RM_ROOT, L_MANUAL_INSERT, L_TEAR_START_NODE
+    L_INS_AFTER_RM, L_RM_BLACK, L_BATTERY, L_TEAR_INTERRUPT, L_TEAR_RESTART, L_EMPTIED, L_LEFT_ONLY, L_RIGHT_ONLY, L_RM_ROOT, L_MANUAL_INSERT, L_TEAR_START_NODE, L_CMP_MAGNITUDE
 };
 static char const *const labels[] = {"remove_leaf", "remove_one_child", "remove_two_children_successor_is_right_child",
                                      "remove_two_children_deeper_successor", "duplicate_insert", "root_changed", "size_ge_16", "size_ge_64",
                                      "insert_after_remove", "rbt_removed_black_node", "iterator_battery_on_ge5_nodes", "tear_interrupted_midway",
-                                     "tear_restarted_from_null", "tree_emptied_and_refilled", "has_left_only_node", "has_right_only_node", "remove_root", "manual_link_plus_insert_adjust", "tear_started_at_arbitrary_node", nullptr};
+                                     "tear_restarted_from_null", "tree_emptied_and_refilled", "has_left_only_node", "has_right_only_node", "remove_root", "manual_link_plus_insert_adjust", "tear_started_at_arbitrary_node", "comparator_returns_magnitudes_not_just_signs", nullptr};
 static char const *const metrics[] = {"max_live_nodes", "max_height", nullptr};
 static uint8_t const dict[] = {4, 5, 6, 12, 13, 20, 21};
 
@@ -512,7 +529,9 @@ static void run_case(Tape &tp, Ctx &cx)
 {
     Tree t;
     static int const usizes[] = {8, 16, 4, 64, 256, 32, 12, 128};
-    int U = usizes[tp.u8() % 8];
+    uint8_t ub = tp.u8();
+    int U = usizes[ub % 8];
+    g_cmp_style = (ub >> 3) & 7; // the upper bits of the same byte: saved tapes keep their meaning, with the plain comparator for small values
 #if VP_PROP == 3
     unsigned period = 1 + tp.u8() % 8;
     unsigned tear_j = tp.u8();
@@ -520,7 +539,9 @@ static void run_case(Tape &tp, Ctx &cx)
     long tear_start = (tp.u8() % 3 == 0) ? long(tp.u8()) : -1;
 #endif
     cx.hash.add(uint64_t(U));
-    cx.log("%s, key universe %d\n", kName, U);
+    cx.log("%s, key universe %d, comparator style %d\n", kName, U, g_cmp_style);
+    cx.hash.add(uint64_t(g_cmp_style) << 16);
+    if (g_cmp_style) { cx.label(L_CMP_MAGNITUDE); }
     unsigned nins = 0, nrm = 0, nops = 0, ins_after_rm = 0, two_child = 0;
     bool emptied = false;
     struct Cleanup
